@@ -22,6 +22,7 @@ OSA = z3.Function("osa", IntS, IntS, IntS)
 
 def register(R, tier="quick"):
     register_terms_within(R)
+    register_expand_prefix(R)
     def mkseq(I, name):
         s = SymList(z3.Array(I.fresh_name(name), IntS, IntS), z3.Int(I.fresh_name("len_" + name)), "list")
         I.assume(s.n >= 0)
@@ -263,3 +264,78 @@ def register_terms_within(R):
                             "(bounded: fuzzy harness); from_bytes is the field's decoding"],
                note="the brute-force path (every multi-segment reader): a term is yielded iff its distance to the text, as "
                     "computed by the proved damerau_levenshtein with limit=maxdist, is at most maxdist")
+
+
+def register_expand_prefix(R):
+    """C19 / C01 — IndexReader.expand_prefix (what Prefix queries and the brute-force terms_within iterate over): from the
+    reader's sorted term sequence starting at (fieldname, prefix) it yields the texts of the INITIAL RUN of terms that belong
+    to the field and start with the prefix, each once, in order, and stops at the first term that does not.
+    (That this run is ALL such terms is the lexicographic-order fact "strings sharing a prefix are contiguous in a sorted
+    list that starts at the prefix" - a string fact, class A.)"""
+    from pyvc.values import Abstract, SpecFn, Obj, Opaque, Builtin
+    RD = "whoosh.reading"
+    FN = z3.Function("ep_field", IntS, IntS)
+    HP = z3.Function("ep_has_prefix", IntS, z3.BoolSort())
+    FIELD = z3.Int("ep_fieldname")
+
+    class Text(Abstract):
+        def __init__(self, i):
+            self.i = to_z3(i)
+
+        def havoc(self, I):
+            pass
+
+        def m_startswith(self, I, prefix):
+            return HP(self.i)
+
+    class Terms(Abstract):
+        def __init__(self, I):
+            self.n = z3.Int(I.fresh_name("nterms"))
+            I.assume(self.n >= 0)
+
+        def havoc(self, I):
+            pass
+
+        def __deepcopy__(self, memo):
+            return self
+
+        def iter_protocol(self, I):
+            return 0, self.n, 1, (lambda i: (FN(to_z3(i)), Text(i)))
+
+    def setup(I):
+        terms = Terms(I)
+        I.ghost["ep_terms"] = terms
+        rd = Obj(I.repo.klass(RD, "IndexReader"), {"terms_from": Builtin("terms_from", lambda I_, a, k, n: terms),
+                                                   "_text_to_bytes": Builtin("_text_to_bytes", lambda I_, a, k, n: a[1])})
+        return {"self": rd, "fieldname": FIELD, "prefix": Opaque("prefix")}
+
+    def good(i):
+        return z3.And(FN(i) == FIELD, HP(i))
+
+    def good_yield(I, y, k):
+        k = to_z3(k)
+        return z3.And(z3.BoolVal(isinstance(y, Text)), (y.i == k) if isinstance(y, Text) else z3.BoolVal(False), good(k))
+
+    def post(I, env):
+        ny = to_z3(I.ghost["ny"])
+        n = I.ghost["ep_terms"].n
+        j = z3.Int("ep_j")
+        ok = I.ghost["ok"]
+        ok = z3.BoolVal(ok) if isinstance(ok, bool) else ok
+        return z3.And(ok, 0 <= ny, ny <= n, z3.ForAll([j], z3.Implies(z3.And(0 <= j, j < ny), good(j))),
+                      z3.Or(ny == n, z3.Not(good(ny))))
+
+    R.contract(RD + ":IndexReader.expand_prefix", props=["C19", "C01"], setup=setup,
+               spec_funcs={"good_yield": SpecFn("good_yield", good_yield)},
+               ghost="ok = True\nny = 0\n", on_yield="ok = ok and good_yield(_y, _k)\nny = ny + 1\n",
+               ensures=[post],
+               loops={0: LoopSpec(index="_k", inv=["ok", "ny == _k",
+                                                   lambda I, env: z3.And(to_z3(env["_k"]) <= I.ghost["ep_terms"].n,
+                                                                         z3.ForAll([z3.Int("ep_i")], z3.Implies(z3.And(0 <= z3.Int("ep_i"), z3.Int("ep_i") < to_z3(env["_k"])),
+                                                                                                              good(z3.Int("ep_i")))))],
+                                  havoc=["ok", "ny"])},
+               canaries=[Canary("other-fields-included", "if fn != fieldname or not text.startswith(prefix):", "if not text.startswith(prefix):"),
+                         Canary("continues-past-the-run", "return", "continue")],
+               assumptions=["terms_from(fieldname, prefix) is the reader's sorted term sequence from (fieldname, prefix) on (bounded: "
+                            "queries / fuzzy harnesses); contiguity of a prefix in sorted order is a string fact (class A)"],
+               note="yields exactly the initial run of terms of the field that carry the prefix, in lexicon order, and stops there")
